@@ -345,10 +345,14 @@ class Program:
 
     def resolve_inherent(self, callee):
         """`IncanError::<'_>::zero_division` -> the method of `impl IncanError<'a>` named zero_division."""
-        c = strip_generics(callee).split("::")
-        if len(c) < 2:
-            return None
-        ty, method = c[-2], c[-1]
+        im = re.search(r"<impl ([\w:]+)(?:<[^>]*>)?>::(\w+)$", callee)
+        if im:
+            ty, method = im.group(1).split("::")[-1], im.group(2)
+        else:
+            c = strip_generics(callee).split("::")
+            if len(c) < 2:
+                return None
+            ty, method = c[-2], c[-1]
         cands = [f for (t, s, m, f) in self.impls if t is None and m == method and type_head(s) == ty]
         return cands[0] if len(cands) == 1 else None
 
